@@ -1,0 +1,97 @@
+//! Verification hooks. Compiled only with `--cfg star_frame_verif`; with the flag off this module does
+//! not exist and no other code changes.
+//!
+//! Off-chain, pinocchio's CPI entry points are no-ops and its sysvar getters fail, so the framework's
+//! account creation and rent logic cannot be executed natively. These hooks let a harness (a) intercept
+//! every CPI right before it is handed to the runtime, with the exact program id, data, account metas,
+//! account infos and signer seeds, and (b) inject the Rent / Clock sysvars.
+use pinocchio::{
+    account_info::AccountInfo,
+    program_error::ProgramError,
+    sysvars::{clock::Clock, rent::Rent},
+};
+use std::cell::{Cell, RefCell};
+
+/// What a CPI hands to the runtime.
+pub struct CpiRecord<'a> {
+    pub program_id: [u8; 32],
+    pub data: &'a [u8],
+    /// (key, is_signer, is_writable) in order
+    pub metas: Vec<([u8; 32], bool, bool)>,
+    pub infos: Vec<AccountInfo>,
+    /// signer seed lists as given to `invoke_signed`
+    pub signer_seeds: Vec<Vec<Vec<u8>>>,
+}
+
+type Handler = Box<dyn FnMut(&CpiRecord<'_>) -> Result<(), ProgramError>>;
+
+thread_local! {
+    static CPI_HANDLER: RefCell<Option<Handler>> = const { RefCell::new(None) };
+    static PENDING_SEEDS: RefCell<Vec<Vec<Vec<u8>>>> = const { RefCell::new(Vec::new()) };
+    static RENT: Cell<Option<Rent>> = const { Cell::new(None) };
+    static CLOCK: Cell<Option<Clock>> = const { Cell::new(None) };
+}
+
+/// Installs (or removes) the CPI interceptor of the current thread.
+pub fn set_cpi_handler(handler: Option<Handler>) {
+    CPI_HANDLER.with(|h| *h.borrow_mut() = handler);
+}
+
+/// Injects (or removes) the Rent sysvar seen by `Context::get_rent`.
+pub fn set_rent(rent: Option<Rent>) {
+    RENT.with(|r| r.set(rent));
+}
+
+/// Injects (or removes) the Clock sysvar seen by `Context::get_clock`.
+pub fn set_clock(clock: Option<Clock>) {
+    CLOCK.with(|c| c.set(clock));
+}
+
+pub(crate) fn injected_rent() -> Option<Rent> {
+    RENT.with(Cell::get)
+}
+
+pub(crate) fn injected_clock() -> Option<Clock> {
+    CLOCK.with(|c| {
+        let v = c.take();
+        c.set(v.clone());
+        v
+    })
+}
+
+pub(crate) fn set_pending_seeds(seeds: &[&[&[u8]]]) {
+    PENDING_SEEDS.with(|p| {
+        *p.borrow_mut() = seeds
+            .iter()
+            .map(|s| s.iter().map(|x| x.to_vec()).collect())
+            .collect();
+    });
+}
+
+/// Returns `Some(result)` when an interceptor is installed (the CPI is then not forwarded).
+pub(crate) fn intercept_cpi(
+    program_id: &[u8; 32],
+    data: &[u8],
+    metas: &[pinocchio::instruction::AccountMeta<'_>],
+    infos: &[&AccountInfo],
+) -> Option<Result<(), ProgramError>> {
+    let mut handler = CPI_HANDLER.with(|h| h.borrow_mut().take())?;
+    let record = CpiRecord {
+        program_id: *program_id,
+        data,
+        metas: metas
+            .iter()
+            .map(|m| (*m.pubkey, m.is_signer, m.is_writable))
+            .collect(),
+        infos: infos.iter().map(|i| **i).collect(),
+        signer_seeds: PENDING_SEEDS.with(|p| p.borrow().clone()),
+    };
+    let res = handler(&record);
+    CPI_HANDLER.with(|h| {
+        let mut slot = h.borrow_mut();
+        if slot.is_none() {
+            *slot = Some(handler);
+        }
+    });
+    Some(res)
+}
